@@ -477,7 +477,7 @@ func gxzFullStdout(c *hx.Ctx, bin string) {
 			tc{"compress -c small " + f, append(append([]string{}, fa...), "-c", "a.txt"), map[string][]byte{"a.txt": small}, nil},
 			tc{"compress -c two small " + f, append(append([]string{}, fa...), "-c", "a.txt", "b.txt"), map[string][]byte{"a.txt": small, "b.txt": small[:100]}, nil},
 			tc{"compress -c big " + f, append(append([]string{}, fa...), "-c", "a.bin"), map[string][]byte{"a.bin": big}, nil},
-			tc{"decompress -c small " + f, append(append([]string{}, fa...), "-dc", "a." + f), map[string][]byte{"a." + f: gxzEncode(f, small)}, nil},
+			tc{"decompress -c small " + f, append(append([]string{}, fa...), "-dc", "a."+f), map[string][]byte{"a." + f: gxzEncode(f, small)}, nil},
 			tc{"filter compress " + f, append([]string{}, fa...), nil, small},
 			tc{"filter decompress " + f, append(append([]string{}, fa...), "-d"), nil, gxzEncode(f, small)},
 		)
